@@ -148,6 +148,9 @@ func (e *Env) unwindFrom(b *Block) {
 	saved := e.cur
 	savedArmed := e.cloneArmed()
 	e.cur = j
+	if e.postB == nil {
+		e.pseudoAnchor("$unwind", true)
+	}
 	e.leave()
 	e.cur = saved
 	e.mayArmed = savedArmed
